@@ -224,13 +224,46 @@ func (w *c10World) apply(s c10Step) (any, []string, error) {
 	case "req-delete-all":
 		d, errs := world.Exec(w.req, w.db, `mutation { delete_T(filter: {a: {_eq: 1}}) { u } }`)
 		return d, errs, nil
+	case "req-update-all-api", "req-delete-all-api", "req-delete-api":
+		// the same attempts through the collection API (client.Collection), which has its own code path
+		col, err := w.db.GetCollectionByName(w.req, "T")
+		if err != nil {
+			return nil, nil, err
+		}
+		var aerr error
+		var out any
+		switch s.Kind {
+		case "req-update-all-api":
+			var res *client.UpdateResult
+			res, aerr = col.UpdateWithFilter(w.req, `{u: {_ge: 0}}`, `{"s": "z"}`)
+			if res != nil {
+				out = res.Count
+			}
+		case "req-delete-all-api":
+			var res *client.DeleteResult
+			res, aerr = col.DeleteWithFilter(w.req, `{a: {_eq: 1}}`)
+			if res != nil {
+				out = res.Count
+			}
+		case "req-delete-api":
+			id, err := client.NewDocIDFromString(w.ids[i])
+			if err != nil {
+				return nil, nil, err
+			}
+			out, aerr = col.Delete(w.req, id)
+		}
+		var errs []string
+		if aerr != nil {
+			errs = []string{aerr.Error()}
+		}
+		return map[string]any{"result": out}, errs, nil
 	}
 	return nil, nil, fmt.Errorf("unknown step %v", s)
 }
 
 func (m *c10Model) apply(s c10Step) {
 	d := &m.Docs[s.Doc]
-	switch s.Kind {
+	switch strings.TrimSuffix(s.Kind, "-api") {
 	case "create-public":
 		*d = c10Doc{Exists: true, A: []int{1, 1, 2}[s.Doc], S: []string{"x", "y", "x"}[s.Doc]}
 	case "create-private":
@@ -272,7 +305,7 @@ func (m *c10Model) apply(s c10Step) {
 
 func (s c10Step) applicable(m *c10Model) bool {
 	d := m.Docs[s.Doc]
-	switch s.Kind {
+	switch strings.TrimSuffix(s.Kind, "-api") {
 	case "grant-reader":
 		return d.Exists && d.Private && !d.Reader && !m.Anon
 	case "grant-writer":
@@ -300,7 +333,10 @@ func c10Steps() []c10Step {
 			out = append(out, c10Step{k, i})
 		}
 	}
-	return append(out, c10Step{"req-update-all", 0}, c10Step{"req-delete-all", 0})
+	for i := 0; i < 3; i++ {
+		out = append(out, c10Step{"req-delete-api", i})
+	}
+	return append(out, c10Step{"req-update-all", 0}, c10Step{"req-delete-all", 0}, c10Step{"req-update-all-api", 0}, c10Step{"req-delete-all-api", 0})
 }
 
 // ---------- requests ----------
@@ -516,7 +552,7 @@ func c10Build(cfg c10Cfg, anon bool, steps []c10Step, keep func(doc int) bool, r
 	}
 	m := &c10Model{Anon: anon}
 	for _, s := range steps {
-		all := s.Kind == "req-update-all" || s.Kind == "req-delete-all"
+		all := strings.HasPrefix(s.Kind, "req-update-all") || strings.HasPrefix(s.Kind, "req-delete-all")
 		if !all && !keep(s.Doc) {
 			if strings.HasPrefix(s.Kind, "create-") {
 				// the public R document that points to the hidden T document exists in the twin too
